@@ -675,24 +675,14 @@ func (s *cancelSvc) runScenario(c *CancelCase) *cancelOutcome {
 		out.Goroutine = block
 		within, blockedIn := insideLarking(block)
 		missing := "handler-ctx-not-cancelled"
+		// the stream call, if any, that was entered and has not returned
 		last := ""
-		for i := len(ev) - 1; i > iCancel; i-- {
-			if n := ev[i].Name; n == "recv-enter" || n == "send-enter" {
-				last = n
-				break
-			} else if n == "recv-return" || n == "send-return" {
-				break
-			}
-		}
-		if last == "" && iCancel >= 0 {
-			// a call entered before the cancel and still pending
-			for i := iCancel; i >= 0; i-- {
-				if n := ev[i].Name; n == "recv-enter" || n == "send-enter" {
-					last = n
-					break
-				} else if n == "recv-return" || n == "send-return" || n == "send-ok" || n == "idle" {
-					break
-				}
+		for _, e := range ev {
+			switch e.Name {
+			case "recv-enter", "send-enter":
+				last = e.Name
+			case "recv-return", "send-return", "send-ok":
+				last = ""
 			}
 		}
 		switch last {
